@@ -13,11 +13,12 @@ NOT_DECIDED = "std's binary_search/sort contracts (trusted); nothing else value-
 
 def r7(ctx):
     paths = [typesrules.GLB, typesrules.LOOKUP, "types::SourceMap::get_token", "types::SourceMap::get_token_count", "types::SourceMap::tokens",
-             "<types::TokenIter<'a> as core::iter::traits::iterator::Iterator>::next", "<types::TokenIter<'a> as core::iter::traits::iterator::Iterator>::next::{closure#0}"]
-    pf.check_bodies(ctx, "C04.R7", [ctx.body(p) for p in paths])
+             "<types::TokenIter<'a> as core::iter::traits::iterator::Iterator>::next"]
+    pf.check_bodies(ctx, "C04.R7", [ctx.body(p) for p in paths] + list(ctx.facts.closures_of(paths[-1])))
 
 
 RULES = {
+    "C04.RL": lambda ctx: __import__("rules.common", fromlist=["x"]).loop_exit_rule(ctx, "C04.RL", {'utils::greatest_lower_bound': 1}),
     "C04.R1": lambda ctx: typesrules.who_writes_tokens(ctx, "C04.R1"),
     "C04.R2": lambda ctx: typesrules.sort_after_write(ctx, "C04.R2"),
     "C04.R3": lambda ctx: typesrules.key_agreement(ctx, "C04.R3"),
